@@ -269,8 +269,7 @@ def r5_append_after_exhaustion(ctx, P):
                 ctx.inst(R, b.path, ok, "reserve appends only after next() returned None", where=b.where(a_s), site="append after exhaustion")
 
 
-def r6_alloc_try_with(ctx, P):
-    R = "C03.R6"
+def r6_alloc_try_with(ctx, P, R="C03.R6"):
     ctx.rule(R, "alloc_try_with(_mut): checkpoint before the allocation; the Err arm rewinds to that checkpoint "
                 "(shared variant: under the unchanged-position test)")
     for nm, shared in (("generic_alloc_try_with", True), ("generic_alloc_try_with_mut", False)):
